@@ -83,6 +83,12 @@ def run(res, tier, seed, shard, nshards):
                     cases.append(("len", fin, op, mask, 126, n))
                 for n in (65536, 65537, 70000, 131072) + ((1 << 20,) if tier == "thorough" else ()):
                     cases.append(("len", fin, op, mask, 127, n))
+    # multi-megabyte frames, masked and unmasked (sizes at and next to powers of two up to 16 MiB, and odd ones)
+    bigs = [(1, R.BINARY, 1, (1 << 22) + 1), (1, R.CONT, 1, 5000003), (0, R.TEXT, 0, (1 << 22) - 1)] if tier == "quick" else \
+        [(fin, op, mask, (1 << k) + d) for k in (20, 21, 22, 23, 24) for d in (-1, 0, 1, 2, 3)
+         for (fin, op, mask) in ((1, R.BINARY, 1), (0, R.CONT, 1), (1, R.TEXT, 0))] + [(1, R.BINARY, 1, 5000003), (1, R.CONT, 1, 12345678)]
+    for fin, op, mask, n in bigs:
+        cases.append(("len", fin, op, mask, 127, n, "big"))
     # (b)/(c) random multi-frame streams
     n_rand = 600 if tier == "quick" else 80000
     for i in range(n_rand):
@@ -111,8 +117,17 @@ def header_case(res, W, rng, c, nseg):
         n = rng.choice([126, 127, 65535, rng.randrange(126, 65536)])
     else:
         n = rng.choice([65536, 65537, 70000, rng.randrange(65536, 200000)])
-    p = legal_payload(rng, op, n)
+    p = legal_payload(rng, op, n) if n < (1 << 20) else (b"abcdefghijklmnopqrstuvwxyz0123456789" * (n // 36 + 1))[:n]
     key = rng.randbytes(4) if mask else None
+    if len(c) > 6:
+        res.count("multi_megabyte_frames")
+        nseg = 1
+        if op == R.CONT:
+            # a continuation needs its message: precede it with the first fragment
+            pre = R.encode(R.BINARY, b"first", fin=0)
+            stream = pre + R.encode(op, p, fin=fin, key=key) + R.encode(R.BINARY, SENT)
+            judge(res, W, stream, [("recv_frame", False)] * 3, None, "eof", {}, ("big", fin, op, mask, n), expect_sentinel=True)
+            return
     stream = R.encode(op, p, fin=fin, key=key) + R.encode(R.BINARY, SENT, key=rng.choice([None, rng.randbytes(4)]))
     script = [("recv_frame", False), ("recv_frame", False)]
     for s in range(nseg):
